@@ -23,6 +23,9 @@ Proof. decide equality; apply Nat.eq_dec. Defined.
 Definition mem (x : node) (l : list node) := existsb (Nat.eqb x) l.
 Definition emem (e : edge) (l : list edge) := existsb (edge_eqb e) l.
 
+Definition set_eqb (a b : list node) : bool := forallb (fun x => mem x b) a && forallb (fun x => mem x a) b.
+Definition eset_eqb (a b : list edge) : bool := forallb (fun x => emem x b) a && forallb (fun x => emem x a) b.
+
 (* ------------------------------------------------------------------ graphflow.find_parents_and_children
    [E] is the edge list in the order produced by `sorted(edges, key=parent.name+child.name)`; the lists below keep
    that order (parents[child] += [parent]; children[parent] += [child]).  Duplicated edges give duplicated entries. *)
@@ -197,4 +200,14 @@ Fixpoint eval (isc : node -> bool) (fb : nat) (e : expr) : result value :=
                  | Ok vb => lift (merge isc (naming fb t) va vb)
                  | ErrCycle => ErrCycle | ErrFuel => ErrFuel end
       | ErrCycle => ErrCycle | ErrFuel => ErrFuel end
+  end.
+
+(* two results denote the same model (nodes, edges, entries, exits compared as sets; both must be accepted or both
+   rejected with the cycle error) *)
+Definition same_model (x y : result value) : bool :=
+  match x, y with
+  | Ok u, Ok v => set_eqb (v_nodes u) (v_nodes v) && eset_eqb (v_edges u) (v_edges v)
+                  && set_eqb (v_ins u) (v_ins v) && set_eqb (v_outs u) (v_outs v)
+  | ErrCycle, ErrCycle => true
+  | _, _ => false
   end.
